@@ -24,10 +24,19 @@ def box(name, N):
         return [1e-3 * (i + 1) for i in range(N)], [7.0 + i for i in range(N)]
     if name == "B3":
         return [-1e6] * N, [-1e6 + 3.0] * N
+    if name.startswith("L:"):      # "L:lo:hi" - the same interval on every axis (lattice of decimal end points)
+        _, a, b = name.split(":")
+        return [float(a)] * N, [float(b)] * N
+    if name.startswith("M:"):      # "M:lo0:hi0:lo1:hi1" - two intervals alternating over the axes
+        v = [float(t) for t in name.split(":")[1:]]
+        return [v[2 * (i % 2)] for i in range(N)], [v[2 * (i % 2) + 1] for i in range(N)]
     raise KeyError(name)
 
 
 BOXES = ("B0", "B1", "B2", "B3")
+# end points whose differences and products are not exactly representable: the cube-to-box map rounds
+ENDS = (-3.0, -2.8, -1.1, -0.7, 0.1, 0.3, 0.6, 1.3, 7.7)
+LATTICE_BOXES = tuple(f"L:{a}:{b}" for i, a in enumerate(ENDS) for b in ENDS[i + 1:])
 
 
 class Fault(Exception):
